@@ -587,3 +587,22 @@ PROPS["C12"]["outside"] = ("MappedTrack::{get / set / remove substate plumbing, 
                            "machine are decided")
 PROPS["C12"]["trusted_base"] = KANI_TB + MIR_TB
 PROPS["C12"]["mir"] = True
+
+
+PROPS["C40"] = dict(
+    title="Access controller changes need two roles or an elapsed timer",
+    functions=["every Transition / TransitionMut implementation of AccessControllerV2Substate in radix-engine/src/"
+               "blueprints/access_controller/v2/state_machine.rs (17 transitions) and validate_recovery_proposal, "
+               "radix_common::time::Instant::add_minutes"],
+    bounds="one transition from EVERY state tuple (primary locking, both recovery attempts with arbitrary proposals, both "
+           "badge-withdraw attempts, arbitrary timer instant), every input proposal, every clock value / clock comparison "
+           "answer, every configured delay (none or any u32 minutes)",
+    outside="which role may call which method (the roles_template / role assignment module), the rule replacement performed "
+            "after a confirmed recovery, the V1 state machine, the vault / proof objects themselves (the vault component "
+            "is a stub that always succeeds), the structure of a RecoveryProposal (compared as an opaque value)",
+    assumptions=["Runtime::current_time returns an arbitrary instant and Runtime::compare_against_current_time an arbitrary "
+                 "boolean (environment stubs; natively a scripted MockApi answers the same calls)",
+                 "RecoveryProposal equality is value equality (opaque id)"],
+    trusted_base=MIR_TB,
+    mir=True,
+)
